@@ -14,7 +14,8 @@ import (
 //
 // Fonts: /F1 Helvetica (Type1, WinAnsiEncoding) for ASCII tokens; /F2 Helvetica
 // with a /ToUnicode CMap that maps the codes 0x41.. to Hebrew U+05D0.. and the
-// codes 0x61.. to Arabic U+0628.. (the right-to-left runs), and 0x30 to U+2022.
+// codes 0x61.. to Arabic U+0628.. (the right-to-left runs), 0x30 to U+2022 and
+// 0x31-0x33 to the currency signs U+20AA, U+20AC, U+00A3.
 
 func dec(n, den int) string {
 	if den == 1 || n%den == 0 {
@@ -58,6 +59,12 @@ func encodeText(t string) (font string, codes []byte, ok bool) {
 			codes = append(codes, byte(0x61+r-0x0628))
 		case r == 0x2022:
 			codes = append(codes, 0x30)
+		case r == 0x20AA:
+			codes = append(codes, 0x31)
+		case r == 0x20AC:
+			codes = append(codes, 0x32)
+		case r == 0x00A3:
+			codes = append(codes, 0x33)
 		default:
 			return "", nil, false
 		}
@@ -72,7 +79,7 @@ func toUnicodeCMap() string {
 	b.WriteString("/CMapName /Adobe-Identity-UCS def\n/CMapType 2 def\n")
 	b.WriteString("1 begincodespacerange\n<00> <FF>\nendcodespacerange\n")
 	b.WriteString("2 beginbfrange\n<41> <5B> <05D0>\n<61> <73> <0628>\nendbfrange\n")
-	b.WriteString("1 beginbfchar\n<30> <2022>\nendbfchar\n")
+	b.WriteString("4 beginbfchar\n<30> <2022>\n<31> <20AA>\n<32> <20AC>\n<33> <00A3>\nendbfchar\n")
 	b.WriteString("endcmap\nCMapName currentdict /CMap defineresource pop\nend\nend\n")
 	return b.String()
 }
